@@ -137,6 +137,11 @@ def bytesOf (big : Bool) (step : Nat) (a v : Nat) : List (Nat × UInt8) :=
   let bs := if big then le.reverse else le
   (List.range step).zip bs |>.map (fun (k, b) => ((a + k) % 4294967296, b))
 
+/-- `int n = address; printf("0x%04x", n / bytes_per_address)`: signed division, printed as unsigned -/
+def printedAddr (a bpa : Nat) : Nat :=
+  let n : Int := if a < 2147483648 then (a : Int) else (a : Int) - 4294967296
+  ((n.tdiv (bpa : Int)) % 4294967296).toNat
+
 def handleSwrite (args : List String) : String :=
   match args with
   | [w, cpu, syms, h] =>
@@ -148,7 +153,7 @@ def handleSwrite (args : List String) : String :=
     | .ok .badAddress => "bad-address"
     | .ok .notAligned => "not-aligned"
     | .ok (.wrote count first ws) =>
-      "count=" ++ toString count ++ " first=" ++ natHex (first / c.bytesPerAddress) ++ " nz=" ++
+      "count=" ++ toString count ++ " first=" ++ natHex (printedAddr first c.bytesPerAddress) ++ " nz=" ++
         dumpNonZero (ws.reverse.flatMap (fun (a, v) => bytesOf c.bigEndian step a v))
   | _ => "bad-op"
 
